@@ -11,7 +11,7 @@ from .fm import *
 
 E = 10
 HINT = {'pa': 10 ** 6, 'pb': 5 * 10 ** 5, 'F': 8 * 10 ** 5, 'C': 10 ** 5, 'F2': 10 ** 6, 'C2': 0, 'X_lp1': 3, 'X_usd': 0, 'X_om': 0, 'wa': 10 ** 6, 'T': 10 ** 7,
-        'amount': 10 ** 5, 'rate': 10 ** 5, 'exp_b': 5 * DAY, 'rate3': 10 ** 3, 'C3': 10 ** 3, 'pb2': 10 ** 5, 'wb': 10 ** 5, 'declared_epochs': 2}
+        'amount': 10 ** 5, 'rate': 10 ** 5, 'exp_b': 5 * DAY, 'rate3': 10 ** 3, 'C3': 10 ** 3, 'pb2': 10 ** 5, 'wb': 10 ** 5, 'declared_epochs': 2, 'pe1': 10 ** 5, 'pe2': 2 * 10 ** 5, 'we': 352200}
 DENOMS = (LP1, 'uusd', 'uom')
 
 
@@ -27,7 +27,8 @@ def liabilities(I, denom):
     return tot
 
 
-def world(I):
+def world(I, weights_at=3):
+    """weights_at: the epoch of the latest weight snapshots -- 3 (long ago) or E + 1 (somebody already acted in the current epoch)"""
     I.set_hint(HINT)
     fm_config(I, fee=coin_v('uom', 1000), max_concurrent=3)
     set_epoch(I, E, now_s=E * DAY + 5)
@@ -61,18 +62,27 @@ def world(I):
     T = I.sym('T', lo=1, hi=U128 // 32)
     wb = I.sym('wb', lo=1, hi=U128 // 64)
     I.assume(T >= wa + wb)
-    put_weight(I, 'bob', LP1, 3, wb)
-    put_weight(I, 'alice', LP1, 3, wa)
-    put_weight(I, FM, LP1, 3, T)
+    # erin holds TWO open positions in the LP token (her weight covers both)
+    pe1 = I.sym('pe1', lo=1, hi=U128 // 64)
+    pe2 = I.sym('pe2', lo=1, hi=U128 // 64)
+    put_position(I, position('u-e1', LP1, pe1, 30 * DAY, 'erin', None))
+    put_position(I, position('u-e2', LP1, pe2, 30 * DAY, 'erin', None))
+    we = I.sym('we', lo=1, hi=U128 // 64)
+    I.assume(T >= wa + wb + we)
+    put_weight(I, 'erin', LP1, weights_at, we)
+    put_weight(I, 'bob', LP1, weights_at, wb)
+    put_weight(I, 'alice', LP1, weights_at, wa)
+    put_weight(I, FM, LP1, weights_at, T)
+    I.world.meta['weights_at'] = weights_at
     X = {}
     for d, key in ((LP1, 'X_lp1'), ('uusd', 'X_usd'), ('uom', 'X_om')):
         X[d] = I.sym(key, hi=U128 // 64)
         b.set(FM, d, simp(liabilities(I, d) + X[d]))
-    return b, X, dict(pa=pa, pb=pb, F=F, C=C, rate=rate)
+    return b, X, dict(pa=pa, pb=pb, F=F, C=C, rate=rate, pe1=pe1, pe2=pe2, we=we)
 
 
 OPS = ['create_position', 'expand_position', 'close_full', 'close_partial', 'withdraw_unlocked', 'emergency_open', 'emergency_closed', 'claim', 'claim_until',
-       'create_farm', 'expand_farm', 'close_farm', 'close_lp_reward_farm', 'expand_by_pool_manager', 'create_by_pool_manager']
+       'create_farm', 'expand_farm', 'close_farm', 'close_lp_reward_farm', 'expand_by_pool_manager', 'create_by_pool_manager', 'close_one_of_two']
 
 
 def run(I, ch, b, op, v):
@@ -91,6 +101,9 @@ def run(I, ch, b, op, v):
         b.set(PMA, LP1, amt)
         I.assume(I.addr_valid('carol'))
         return ch.execute(PMA, FM, manage_position('Create', identifier=NONE(), unlocking_duration=30 * DAY, receiver=Some('carol')), [coin_v(LP1, amt)])
+    if op == 'close_one_of_two':
+        put_last_claimed(I, 'erin', E)
+        return ch.execute('erin', FM, manage_position('Close', identifier='u-e1', lp_asset=NONE()), [])
     if op == 'close_full':
         put_last_claimed(I, 'alice', E)           # no pending rewards
         return ch.execute('alice', FM, manage_position('Close', identifier='u-a', lp_asset=NONE()), [])
@@ -133,7 +146,7 @@ def _ob(op):
         I.observe('status', 'ok' if st == 'ok' else 'err')
         for d in DENOMS:
             I.observe('bal:farm_manager:' + d, b.get(FM, d))
-        for pid in ('u-a', 'u-b', 'u-b2', 'p-8'):
+        for pid in ('u-a', 'u-b', 'u-b2', 'u-e1', 'u-e2', 'p-8'):
             observe_position(I, pid)
         for fid in ('f-1', 'f-2', 'f-3', 'f-4'):
             observe_farm(I, fid)
@@ -149,17 +162,22 @@ def _ob(op):
     return s
 
 
+def WA(m):
+    return [3, E + 1][m.get('_choices', {}).get('weights_at', 0)]
+
+
 def _build(op):
     def build(m):
         ch = m['_choices']
         rate = m['rate']
         exp_b = 5 * DAY if ch.get('bob_position', 0) == 0 else 200 * DAY
-        pos = [('u-a', LP1, m['pa'], 30 * DAY, 'alice', None), ('u-b', LP1, m['pb'], DAY, 'bob', exp_b), ('u-b2', LP1, m['pb2'], DAY, 'bob', None)]
+        pos = [('u-a', LP1, m['pa'], 30 * DAY, 'alice', None), ('u-b', LP1, m['pb'], DAY, 'bob', exp_b), ('u-b2', LP1, m['pb2'], DAY, 'bob', None),
+               ('u-e1', LP1, m['pe1'], 30 * DAY, 'erin', None), ('u-e2', LP1, m['pe2'], 30 * DAY, 'erin', None)]
         farms = [('f-1', 'fowner', LP1, 'uusd', rate * 8, m['C'], rate, 4, 12), ('f-2', 'fowner2', LP2, LP1, m['F2'], m['C2'], 1, 4, 12),
                  ('f-3', 'fowner', LP1, 'uom', m['rate3'] * 8, m['C3'], m['rate3'], 4, 12)]
-        liab = {LP1: m['pa'] + m['pb'] + m['pb2'] + m['F2'] - m['C2'], 'uusd': rate * 8 - m['C'], 'uom': m['rate3'] * 8 - m['C3']}
+        liab = {LP1: m['pa'] + m['pb'] + m['pb2'] + m['pe1'] + m['pe2'] + m['F2'] - m['C2'], 'uusd': rate * 8 - m['C'], 'uom': m['rate3'] * 8 - m['C3']}
         mints = [('farm_manager', [(LP1, liab[LP1] + m['X_lp1']), ('uusd', liab['uusd'] + m['X_usd']), ('uom', liab['uom'] + m['X_om'])])]
-        d = {'now_s': E * DAY + 5, 'positions': pos, 'farms': farms, 'weights': [('alice', LP1, 3, m['wa']), ('bob', LP1, 3, m['wb']), ('farm_manager', LP1, 3, m['T'])],
+        d = {'now_s': E * DAY + 5, 'positions': pos, 'farms': farms, 'weights': [(u, LP1, WA(m), w) for u, w in (('alice', m['wa']), ('bob', m['wb']), ('erin', m['we']), ('farm_manager', m['T']))],
              'counters': {'position': 7, 'farm': 3}, 'mints': mints, 'last_claimed': [],
              'config': {'create_farm_fee': {'denom': 'uom', 'amount': '1000'}, 'max_concurrent_farms': 3}}
         a = m.get('amount', 1)
@@ -178,6 +196,9 @@ def _build(op):
         elif op == 'create_by_pool_manager':
             d['mints'].append(('pool_manager', [(LP1, a)]))
             d['txs'] = [('pool_manager', P('create', identifier=None, unlocking_duration=30 * DAY, receiver='@carol'), [(LP1, a)])]
+        elif op == 'close_one_of_two':
+            d['last_claimed'] = [('erin', E)]
+            d['txs'] = [('erin', P('close', identifier='u-e1', lp_asset=None), [])]
         elif op in ('close_full', 'close_partial'):
             d['last_claimed'] = [('alice', E)]
             d['txs'] = [('alice', P('close', identifier='u-a', lp_asset=None if op == 'close_full' else coin_j(LP1, a)), [])]
